@@ -137,6 +137,7 @@ class SymRepo(G.Repository):
                                      z3.BitVecSort(W), z3.BoolSort())
         self.rejected = {}       # ref name -> z3 Bool (persistent per job)
         self.conflicts_taken = 0
+        self.merge_mask = 0      # fresh atoms created by (conflict-free) merges
         self.differs_taken = 0
         self.log_cut = False     # cut: `git log` (used for message text) -> empty
         self.reject_refs = None  # None: server never refuses; else set of refs / 'all'
@@ -399,6 +400,11 @@ class SymRepo(G.Repository):
         a, b = self.resolve(rest[0]), self.resolve(rest[1])
         if self.ctx.decide(a == b):
             return b''
+        # merge commits made without conflict carry no content of their own:
+        # two commits with the same non-merge ancestors have the same tree
+        keep = z3.BitVecVal(((1 << self.W) - 1) & ~self.merge_mask, self.W)
+        if self.ctx.decide((self.cl(a) & keep) == (self.cl(b) & keep)):
+            return b''
         if self.ctx.decide(self.ctx.fresh_bool('differs')):
             self.differs_taken += 1
             return b'diff'
@@ -449,6 +455,7 @@ class SymRepo(G.Repository):
         for k in red:
             u = u | C[k]
         self.tip[dst] = self.fresh(u, 'merge into %s of %s' % (dst, [str(s) for s in srcs]))
+        self.merge_mask |= 1 << (self.N + self.nfresh_used - 1)
         return 'Merge made'
 
     def _git_ls_remote(self, rest, kw):
@@ -466,8 +473,9 @@ class SymRepo(G.Repository):
         if '--all' in flags:
             atomic = '--atomic' in flags
             prune = '--prune' in flags
-            updates = []     # (ref, new, ok)
+            updates = []     # (kind, ref, new, ok)
             failed = False
+            cands = []       # (kind, ref, new, fast-forward?)
             for r in sorted(self.tip):
                 new = self.tip[r]
                 if r in self.remote:
@@ -476,15 +484,22 @@ class SymRepo(G.Repository):
                     ff = force or self.subset(self.cl(self.remote[r]), self.cl(new))
                 else:
                     ff = True
-                ok = ff and not self.ctx.decide(self.rej(r))
-                failed |= not ok
-                updates.append(('update', r, new, ok))
+                cands.append(('update', r, new, ff))
             if prune:
                 for r in sorted(self.remote):
                     if r not in self.tip:
-                        ok = not self.ctx.decide(self.rej(r))
-                        failed |= not ok
-                        updates.append(('delete', r, None, ok))
+                        cands.append(('delete', r, None, True))
+            if atomic:
+                # only the disjunction matters: one refusal refuses everything
+                anyrej = z3.Or(*[self.rej(r) for (_, r, _, _) in cands]) if cands else z3.BoolVal(False)
+                if not all(ff for (_, _, _, ff) in cands) or self.ctx.decide(anyrej):
+                    raise CommandError('atomic push failed')
+                updates = [(k, r, n, True) for (k, r, n, _) in cands]
+            else:
+                for k, r, n, ff in cands:
+                    ok = ff and not self.ctx.decide(self.rej(r))
+                    failed |= not ok
+                    updates.append((k, r, n, ok))
             if atomic and failed:
                 raise CommandError('atomic push failed')
             deferred = [] if atomic else None
@@ -584,6 +599,12 @@ class StatusHost:
         self.repo = repo
         self.key = key
         self.asked = []
+
+    def get_build_url(self, sha, key):
+        return 'http://build'
+
+    def get_commit_url(self, sha):
+        return 'http://commit'
 
     def get_build_status(self, sha, key):
         from symx.core import SEnum
